@@ -573,6 +573,8 @@ func init() {
 		c20Func(c, &sb, mt, "TermWriter.Close", "close", "multiterm.go Close()")
 		// round 4b: the whole scan of WriteLineNoWrap (c20trim.go)
 		c20TrimScan(c, &sb)
+		c20Init(c, &sb)
+		c.Fingerprint(lt, "init")
 		sb.WriteString("end Rare.Gen.C20\n")
 		return sb.String()
 	})
